@@ -544,6 +544,15 @@ class RStamp(_OpaqueStamp):
         if name in ("astimezone", "tz_convert"):
             # the same instant on another clock
             return _Callable(lambda *a, **k: RStamp(self.t, self.nat, self.label))
+        if name == "tz_localize":
+            def tz_localize(tz=None, *a, **k):
+                if tz is not None or a or k:
+                    return _OpaqueStamp(f"{self.label}.tz_localize(...)")
+                # the stamp's own WALL-CLOCK reading as a naive timestamp: the instant shifted by the zone's offset at that instant (an unknown of at
+                # most 14 hours, the same for the same instant)
+                use(interp, "pd.wall_clock")
+                return RStamp(wall_seconds(interp, self.t), self.nat, f"{self.label}.tz_localize(None)")
+            return _Callable(tz_localize)
         if name == "isoformat":
             return _Callable(lambda *a, **k: SOpaque(f"{self.label}.isoformat()"))
         if name == "replace":
@@ -588,6 +597,22 @@ class RDelta:
 
 
 assumed("pd.stamp_replace", "Timestamp.replace(hour=0 / 23, minute=0, second=0, microsecond=0) is 00:00 / 23:00 of the stamp's own local day (a local day has at most 25 hours)")
+
+
+def wall_seconds(interp, t):
+    """ghost: the wall-clock reading (seconds of the naive local timestamp) of the instant t in the data's own zone"""
+    run = interp.run
+    store = run.__dict__.setdefault("_wall_clock", {})
+    key = z3.simplify(to_real(t)).sexpr() if is_z3(t) else str(t)
+    if key not in store:
+        w = run.input(f"wall_clock_seconds#{len(store)}", z3.RealSort())
+        run._add(z3.And(w >= to_real(t) - 50400, w <= to_real(t) + 50400))
+        store[key] = w
+    return store[key]
+
+
+assumed("pd.wall_clock", "Timestamp.tz_localize(None) of a timezone-aware stamp is its wall-clock reading: the instant shifted by the zone's UTC offset at that instant "
+                         "(within +-14 h); differences of two such readings count calendar time on the local clock")
 
 
 def on_the_hour(interp):
@@ -1660,6 +1685,10 @@ def install():
     @libmodels.api("index_max_seconds")
     def _index_max_seconds(interp, args, kwargs, node, frame):
         return index_extreme(interp, args[0], "max").t
+
+    @libmodels.api("wall_clock_seconds")
+    def _wall_clock_seconds(interp, args, kwargs, node, frame):
+        return wall_seconds(interp, args[0])
 
     @libmodels.api("index_is_empty")
     def _index_is_empty(interp, args, kwargs, node, frame):
